@@ -5,21 +5,21 @@
    Theorems only (`exact lemma`) + refutation witnesses and non-vacuity examples. *)
 From Coq Require Import List Arith Bool PeanoNat String.
 Import ListNotations.
-Require Import TL.Model.Core TL.Model.RoutineAst TL.Proofs.RoutineAst.
+Require Import TL.Model.Core TL.Model.CoreLate TL.Model.RoutineAst TL.Proofs.RoutineAst.
 
 (* ---- all heads at once ---- *)
-Theorem RA_unm_step : forall rt E n t x h, head_of E t = Some h -> guard_u rt E (unm rt E n) t x = true ->
+Theorem RA_unm_step : forall rt E n t x h, head_of E t = Some h -> guard_u E t = true ->
   run rt E (unm rt E n) t (expected DU h) x = unm rt E (S n) t x.
 Proof. exact unm_step. Qed.
-Theorem RA_mar_step : forall rt E n t x h, head_of E t = Some h -> guard_m rt E (mar rt E n) t x = true ->
+Theorem RA_mar_step : forall rt E n t x h, head_of E t = Some h ->
   run rt E (mar rt E n) t (expected DM h) x = mar rt E (S n) t x.
 Proof. exact mar_step. Qed.
 
 (* ---- per routine class: unmarshal ---- *)
-Theorem RA_unm_iterable : forall rt E n k a x, guard_u rt E (unm rt E n) (TSeq k a) x = true ->
+Theorem RA_unm_iterable : forall rt E n k a x,
   run rt E (unm rt E n) (TSeq k a) (expected DU HIterable) x = unm rt E (S n) (TSeq k a) x.
 Proof. exact unm_iterable. Qed.
-Theorem RA_unm_mapping : forall rt E n k kt vt x, guard_u rt E (unm rt E n) (TMap k kt vt) x = true ->
+Theorem RA_unm_mapping : forall rt E n k kt vt x,
   run rt E (unm rt E n) (TMap k kt vt) (expected DU HMapping) x = unm rt E (S n) (TMap k kt vt) x.
 Proof. exact unm_mapping. Qed.
 Theorem RA_unm_tuple : forall rt E n ts x,
@@ -36,7 +36,7 @@ Proof. exact unm_union. Qed.
 Theorem RA_mar_iterable : forall rt E n k a x,
   run rt E (mar rt E n) (TSeq k a) (expected DM HIterable) x = mar rt E (S n) (TSeq k a) x.
 Proof. exact mar_iterable. Qed.
-Theorem RA_mar_mapping : forall rt E n k kt vt x, guard_m rt E (mar rt E n) (TMap k kt vt) x = true ->
+Theorem RA_mar_mapping : forall rt E n k kt vt x,
   run rt E (mar rt E n) (TMap k kt vt) (expected DM HMapping) x = mar rt E (S n) (TMap k kt vt) x.
 Proof. exact mar_mapping. Qed.
 Theorem RA_mar_tuple : forall rt E n ts x,
@@ -49,22 +49,21 @@ Theorem RA_mar_union : forall rt E n ts x,
   run rt E (mar rt E n) (TUnion ts) (expected DM HUnion) x = mar rt E (S n) (TUnion ts) x.
 Proof. exact mar_union. Qed.
 
-(* ---- the hashing guard is EXACT: outside it the program (the code) raises TypeError and Core's step does not ---- *)
-Theorem RA_unm_set_outside : forall rt E n k a x, (k = KSet \/ k = KFrozenset) ->
-  guard_u rt E (unm rt E n) (TSeq k a) x = false ->
+(* ---- against the EARLIER formulation of Core's set / mapping steps (convert every member, hash afterwards:
+        Model/CoreLate.v).  Where the two orders differ (`*_parts`) the program (the code) raises TypeError and the
+        earlier step reported another failure -- the modelling error the translator found (D1), now repaired in Core ---- *)
+Theorem RA_unm_set_late_outside : forall rt E n k a x, seq_parts rt (unm rt E n) k a x = true ->
   run rt E (unm rt E n) (TSeq k a) (expected DU HIterable) x = Raise EType /\
-  unm rt E (S n) (TSeq k a) x <> Raise EType.
-Proof. exact unm_iterable_outside. Qed.
-Theorem RA_unm_mapping_outside : forall rt E n k kt vt x,
-  guard_u rt E (unm rt E n) (TMap k kt vt) x = false ->
+  CoreLate.is_other (seq_late rt (unm rt E n) k a x) = true.
+Proof. exact unm_iterable_late_outside. Qed.
+Theorem RA_unm_mapping_late_outside : forall rt E n k kt vt x, map_parts rt E (unm rt E n) kt vt x = true ->
   run rt E (unm rt E n) (TMap k kt vt) (expected DU HMapping) x = Raise EType /\
-  unm rt E (S n) (TMap k kt vt) x <> Raise EType.
-Proof. exact unm_mapping_outside. Qed.
-Theorem RA_mar_mapping_outside : forall rt E n k kt vt x,
-  guard_m rt E (mar rt E n) (TMap k kt vt) x = false ->
+  CoreLate.is_other (map_late rt E (unm rt E n) k kt vt x) = true.
+Proof. exact unm_mapping_late_outside. Qed.
+Theorem RA_mar_mapping_late_outside : forall rt E n k kt vt x, mmap_parts rt E (mar rt E n) kt vt x = true ->
   run rt E (mar rt E n) (TMap k kt vt) (expected DM HMapping) x = Raise EType /\
-  mar rt E (S n) (TMap k kt vt) x <> Raise EType.
-Proof. exact mar_mapping_outside. Qed.
+  CoreLate.is_other (mmap_late rt E (mar rt E n) kt vt x) = true.
+Proof. exact mar_mapping_late_outside. Qed.
 
 (* hashing every element as it is produced = converting everything and hashing afterwards, outside late_hash *)
 Theorem RA_hash_order : forall rt (A : Type) (key : A -> pv) (l : list (res A)),
@@ -79,11 +78,11 @@ Proof. exact src_prog_expected. Qed.
 Theorem RA_src_prog_dir : forall tb d h, progs_agree_dir d tb = true -> src_prog tb d h = expected d h.
 Proof. exact src_prog_expected_dir. Qed.
 Theorem RA_unm_step_src : forall rt E tb, progs_agree_dir DU tb = true ->
-  forall n t x h, head_of E t = Some h -> guard_u rt E (unm rt E n) t x = true ->
+  forall n t x h, head_of E t = Some h -> guard_u E t = true ->
   run rt E (unm rt E n) t (src_prog tb DU h) x = unm rt E (S n) t x.
 Proof. exact unm_step_src. Qed.
 Theorem RA_mar_step_src : forall rt E tb, progs_agree_dir DM tb = true ->
-  forall n t x h, head_of E t = Some h -> guard_m rt E (mar rt E n) t x = true ->
+  forall n t x h, head_of E t = Some h ->
   run rt E (mar rt E n) t (src_prog tb DM h) x = mar rt E (S n) t x.
 Proof. exact mar_step_src. Qed.
 
@@ -99,9 +98,9 @@ Print Assumptions RA_mar_mapping.
 Print Assumptions RA_mar_tuple.
 Print Assumptions RA_mar_struct.
 Print Assumptions RA_mar_union.
-Print Assumptions RA_unm_set_outside.
-Print Assumptions RA_unm_mapping_outside.
-Print Assumptions RA_mar_mapping_outside.
+Print Assumptions RA_unm_set_late_outside.
+Print Assumptions RA_unm_mapping_late_outside.
+Print Assumptions RA_mar_mapping_late_outside.
 Print Assumptions RA_hash_order.
 Print Assumptions RA_prog_eqb_sound.
 Print Assumptions RA_src_prog.
@@ -135,32 +134,35 @@ Definition E0 : env := fun c =>
   end.
 Definition lst (l : list pv) := PSeq KList l.
 
-(* MODELLING DIFFERENCE (Core vs the code), witness for sets: set[list[int]] on [[1], ["x"]].
+(* THE MODELLING DIFFERENCE FOUND (earlier Core vs the code), witness for sets: set[list[int]] on [[1], ["x"]].
    The code (the program): `set(...)` hashes the first converted member [1] -> TypeError, the second member is never
-   converted.  Core.unm: converts both members first -> the ValueError of int("x").
+   converted.  Core.unm does the same now; the earlier step converted both members first -> the ValueError of int("x").
    On /repo: unmarshal(set[list[int]], [[1], ["x"]]) raises TypeError("unhashable type: 'list'"). *)
-Example RA_unm_set_refuted :
-  let t := TSeq KSet (TSeq KList (TLeaf 0)) in
+Example RA_unm_set_late_refuted :
+  let a := TSeq KList (TLeaf 0) in
   let x := lst [lst [PAtom 1]; lst [PAtom 9]] in
-  guard_u rt0 E0 (unm rt0 E0 2) t x = false /\
-  run rt0 E0 (unm rt0 E0 2) t (expected DU HIterable) x = Raise EType /\
-  unm rt0 E0 3 t x = Raise EValue.
+  seq_parts rt0 (unm rt0 E0 2) KSet a x = true /\
+  run rt0 E0 (unm rt0 E0 2) (TSeq KSet a) (expected DU HIterable) x = Raise EType /\
+  unm rt0 E0 3 (TSeq KSet a) x = Raise EType /\
+  seq_late rt0 (unm rt0 E0 2) KSet a x = Raise EValue.
 Proof. vm_compute. repeat split. Qed.
 (* the same for mappings: dict[list[int], int] on [[[1], 2], [[2], "x"]] *)
-Example RA_unm_mapping_refuted :
-  let t := TMap KDict (TSeq KList (TLeaf 0)) (TLeaf 0) in
+Example RA_unm_mapping_late_refuted :
+  let kt := TSeq KList (TLeaf 0) in
   let x := lst [lst [lst [PAtom 1]; PAtom 2]; lst [lst [PAtom 2]; PAtom 9]] in
-  guard_u rt0 E0 (unm rt0 E0 2) t x = false /\
-  run rt0 E0 (unm rt0 E0 2) t (expected DU HMapping) x = Raise EType /\
-  unm rt0 E0 3 t x = Raise EValue.
+  map_parts rt0 E0 (unm rt0 E0 2) kt (TLeaf 0) x = true /\
+  run rt0 E0 (unm rt0 E0 2) (TMap KDict kt (TLeaf 0)) (expected DU HMapping) x = Raise EType /\
+  unm rt0 E0 3 (TMap KDict kt (TLeaf 0)) x = Raise EType /\
+  map_late rt0 E0 (unm rt0 E0 2) KDict kt (TLeaf 0) x = Raise EValue.
 Proof. vm_compute. repeat split. Qed.
 (* marshal: dict[tuple[int, ...], int] -- a tuple key marshals to a list -- on {(1,): 2, (2,): "x"} *)
-Example RA_mar_mapping_refuted :
-  let t := TMap KDict (TSeq KTuple (TLeaf 0)) (TLeaf 0) in
+Example RA_mar_mapping_late_refuted :
+  let kt := TSeq KTuple (TLeaf 0) in
   let x := PDict KDict [(PSeq KTuple [PAtom 1], PAtom 2); (PSeq KTuple [PAtom 2], PAtom 9)] in
-  guard_m rt0 E0 (mar rt0 E0 2) t x = false /\
-  run rt0 E0 (mar rt0 E0 2) t (expected DM HMapping) x = Raise EType /\
-  mar rt0 E0 3 t x = Raise EValue.
+  mmap_parts rt0 E0 (mar rt0 E0 2) kt (TLeaf 0) x = true /\
+  run rt0 E0 (mar rt0 E0 2) (TMap KDict kt (TLeaf 0)) (expected DM HMapping) x = Raise EType /\
+  mar rt0 E0 3 (TMap KDict kt (TLeaf 0)) x = Raise EType /\
+  mmap_late rt0 E0 (mar rt0 E0 2) kt (TLeaf 0) x = Raise EValue.
 Proof. vm_compute. repeat split. Qed.
 (* req_wf is needed: a required key that is no field is a TypeError of the code, invisible to Core *)
 Example RA_unm_struct_refuted :
@@ -172,7 +174,7 @@ Proof. vm_compute. repeat split. Qed.
 (* non-vacuity: the guards hold and the programs compute *)
 Example RA_unm_set_ok :
   let t := TSeq KSet (TLeaf 0) in
-  guard_u rt0 E0 (unm rt0 E0 2) t (lst [PAtom 1; PAtom 1; PAtom 2]) = true /\
+  guard_u E0 t = true /\
   run rt0 E0 (unm rt0 E0 2) t (expected DU HIterable) (lst [PAtom 1; PAtom 1; PAtom 2]) = Ok (PSeq KSet [PAtom 1; PAtom 2]).
 Proof. vm_compute. repeat split. Qed.
 Example RA_unm_struct_ok :
